@@ -47,6 +47,18 @@ pub fn check(prop: &str, tier: &str) -> i32 {
       assumptions: vec!["task-side and checker-side logs are the ground truth"],
       configs: vec![Config { name: "td", quick: 60_000, thorough: 2_000_000 }, Config { name: "bu-pure", quick: 60_000, thorough: 2_000_000 }],
     }, tier),
+    "C16" => run_check(&BuildEngine, &CheckSpec {
+      prop: "C16",
+      rule: "replays",
+      assumptions: vec![],
+      configs: vec![Config { name: "td-replay", quick: 20_000, thorough: 700_000 }, Config { name: "bu-replay", quick: 20_000, thorough: 700_000 }, Config { name: "bu-mixed-replay", quick: 10_000, thorough: 300_000 }],
+    }, tier),
+    "C19" => run_check(&BuildEngine, &CheckSpec {
+      prop: "C19",
+      rule: "crash faults",
+      assumptions: vec![],
+      configs: vec![Config { name: "td-crash", quick: 100_000, thorough: 3_000_000 }, Config { name: "bu-crash", quick: 60_000, thorough: 2_000_000 }],
+    }, tier),
     _ => { eprintln!("no check for property {prop}"); 2 }
   }
 }
@@ -62,6 +74,8 @@ pub fn configs_of(prop: &str) -> Vec<&'static str> {
     "C03" | "C04" => vec!["bu-pure", "bu-allroots"],
     "C10" | "C11" => vec!["short", "long"],
     "C17" => vec!["td", "bu-pure"],
+    "C19" => vec!["td-crash", "bu-crash"],
+    "C16" => vec!["td-replay", "bu-replay", "bu-mixed-replay"],
     _ => vec![],
   }
 }
